@@ -60,6 +60,7 @@ func (dec *Decoder) decodeUUID(t reflect.Type, tag byte, p *uuid.UUID) {
 	case TagBytes:
 		if dec.IsSimple() {
 			*p = dec.bytesToUUID(dec.readUnsafeBytes())
+			dec.Skip()
 		} else {
 			*p = dec.bytesToUUID(dec.ReadBytes())
 		}
